@@ -77,9 +77,12 @@ def specLat (c : Case) (act : List Nat) (a b : Nat) : Nat :=
 def specLoss (c : Case) (act : List Nat) (a b : Nat) : Nat :=
   min SC (c.baseLoss a b + sumOver act (lossC c.faults · a b))
 
-/-- capacity × `SC` -/
-def specCap (c : Case) (act : List Nat) : Nat :=
-  c.cap * SC * prodOver act (capNum c.faults) / prodOver act (capDen c.faults)
+/-- capacity × `SC`, for a configured capacity `base` -/
+def specCapB (c : Case) (base : Nat) (act : List Nat) : Nat :=
+  base * SC * prodOver act (capNum c.faults) / prodOver act (capDen c.faults)
+
+/-- capacity × `SC` (for the capacity the resource was built with) -/
+def specCap (c : Case) (act : List Nat) : Nat := specCapB c c.cap act
 
 /-! ### which plans the schedule accepts -/
 
@@ -163,6 +166,7 @@ structure JSt where
   done : List Nat := []                    -- deactivated
   canc : List Nat := []                    -- handles cancelled during the run
   healed : Bool := false                   -- a `Network.heal_partition()` call was processed
+  base : Option Nat := none                -- the capacity the model last set (`none`: as built)
   grants : List (Nat × Nat) := []          -- (job, amount) granted and not released, oldest first
   emis : List (Nat × Nat) := []
   sent : List (Nat × Nat × Nat) := []      -- probe, send time, specified latency
@@ -171,8 +175,9 @@ def heldOf (g : List (Nat × Nat)) : Nat := (g.map (·.2)).sum
 
 def zip3 (ls : List Link) (xs : List α) : List (Link × α) := ls.zip xs
 
-def judgeSettings (c : Case) (act : List Nat) (held : Nat) (s : Settings) (healed : Bool := false) :
-    Option String :=
+def judgeSettings (c : Case) (act : List Nat) (held : Nat) (s : Settings) (healed : Bool := false)
+    (base : Option Nat := none) : Option String :=
+  let specCap := fun (c : Case) (act : List Nat) => specCapB c (base.getD c.cap) act
   let pre := if act.isEmpty then "restore/" else ""
   let post := if healed then "/after-heal-all" else ""
   if s.P.length != c.links.length || s.L.length != c.links.length || s.X.length != c.links.length then
@@ -220,7 +225,7 @@ def judgeStep (c : Case) (st : JSt) (o : Obs) : JSt × Option String :=
   let fs := c.faults
   let chk (st' : JSt) : JSt × Option String :=
     match o.settings with
-    | some s => (st', judgeSettings c st'.act (heldOf st'.grants) s st'.healed)
+    | some s => (st', judgeSettings c st'.act (heldOf st'.grants) s st'.healed st'.base)
     | none => (st', none)
   match o.pop with
   | .fault t f a =>
@@ -256,6 +261,7 @@ def judgeStep (c : Case) (st : JSt) (o : Obs) : JSt × Option String :=
         (st, some "fault/event-missing")
       else chk { st with canc := f :: st.canc }
   | .healall _ k => chk { st with act := st.act.filter (fun f => !partOnF fs k f), healed := true }
+  | .setcap _ v => chk { st with base := some v }
   | .job _ j cont =>
     let e := (c.job j).ent
     let down := 0 < specDown fs st.act e
@@ -322,7 +328,7 @@ def judgeEnd (c : Case) (st : JSt) (final : Option Settings) : Option String :=
   | some _ => some "fault/event-missing"
   | none =>
     match final with
-    | some s => judgeSettings c st.act (heldOf st.grants) s st.healed
+    | some s => judgeSettings c st.act (heldOf st.grants) s st.healed st.base
     | none => none
 
 /-- "processing resumes from the restart time", "in effect exactly while a window is active": a
